@@ -68,6 +68,17 @@ fn c05_composition(p: Quaternion<R>, q: Quaternion<R>) {
     vassert_eq("Basis3 &*&", Matrix3::from(&bp * &bq), mp * mq);
     let m4p: Matrix4<R> = p.into(); let m4q: Matrix4<R> = q.into(); let m4pq: Matrix4<R> = (p * q).into();
     vassert_eq("M4(pq)=M4(p)M4(q)", m4pq, m4p * m4q);
+    // every way of composing spells the same product: references, Transform::concat, in-place concat_self, Rotation for Basis3
+    vassert_eq("M4 &*&", &m4p * &m4q, m4pq);
+    vassert_eq("M4 concat", Transform::<Point3<R>>::concat(&m4p, &m4q), m4pq);
+    let mut acc4 = m4p; Transform::<Point3<R>>::concat_self(&mut acc4, &m4q);
+    vassert_eq("M4 concat_self", acc4, m4pq);
+    let mut acc3 = mp; Transform::<Point2<R>>::concat_self(&mut acc3, &mq);
+    vassert_eq("M3 concat_self", acc3, mpq);
+    let folded: Basis3<R> = [bp, bq].iter().product();
+    vassert_eq("Basis3 product", Matrix3::from(folded), mpq);
+    let qfold: Quaternion<R> = [p, q].iter().product();
+    vassert_eq("Quaternion product", Matrix3::from(qfold), mpq);
     vcover("end");
 }
 // matrix -> quaternion returns q or -q in each of the four branches
